@@ -7,7 +7,7 @@ RULE = ("correspondence: the verif_hooks call counters (From<&Value>, parse_rule
         "(merger), random deep related pairs and ~10k documents for both inference paths. oracle on the implementation: heap "
         "allocations (counting global allocator in the harness) over three families — nesting depth 1..20 at constant width, "
         "width up to 10^4 at constant depth, up to 10^3 sources — must grow at most quadratically: alloc(2n) <= 4*alloc(n)+C. "
-        "non-trivial = case whose count is > 1; distinct = distinct case line")
+        "violation search: when the counters disagree and nothing else failed, every disagreeing document / shape pair is nested in one of its own leaves up to 16 levels and the counters of the implementation must not multiply per level. non-trivial = case whose count is > 1; distinct = distinct case line")
 ASSUMPTIONS = ["the unit of work proved about is the number of calls of the four recursive entry points; allocations are measured, not modelled",
                "counts are compared in a single-threaded harness process (global counters)"]
 
@@ -31,6 +31,71 @@ def nest_arrobj(d):
 
 def poly_ok(c1, c2, K=400):
     return c2 <= 4 * c1 + K
+
+
+import re
+_DOC_LEAF = re.compile(r"(?:(?<=[\[,:])|^)([nt1s])(?=[\],}]|$)")
+_SH_LEAF = re.compile(r"N|[B#S][01]")
+
+def _subst(text, rx, idx, repl):
+    ms = list(rx.finditer(text))
+    if idx >= len(ms):
+        return None
+    m = ms[idx]
+    return text[:m.start()] + repl + text[m.end():]
+
+def amplify(ctx):
+    """violation search for a broken counter correspondence: nest each disagreeing document (shape pair) inside one of
+    its own leaves, level by level, and test on the implementation's own counters whether the work multiplies with the
+    nesting depth (the proved statement: calls = nodes for inference, <= |a||b| for is_subset, <= min / 2|a||b| for merger)"""
+    tried = 0
+    for dis in ctx.disagreements[:10]:
+        f = dis["case"].split("\t")
+        if f[0] != "counts":
+            continue
+        for leaf in range(3):
+            series, cases = [], []
+            if f[1] in ("infer_value", "infer_text"):
+                cur = f[2]
+                for _ in range(16):
+                    nxt = _subst(f[2], _DOC_LEAF, leaf, cur)
+                    if nxt is None:
+                        break
+                    cur = nxt
+                    cases.append("counts\t%s\t%s" % (f[1], cur))
+            elif f[1] in ("subset", "merger"):
+                ca, cb = f[2], f[3]
+                for _ in range(16):
+                    na, nb = _subst(f[2], _SH_LEAF, leaf, ca), _subst(f[3], _SH_LEAF, leaf, cb)
+                    if na is None or nb is None:
+                        break
+                    try:
+                        ca, cb = sh_str(vlib.norm_sh(vlib.parse_sh(na))), sh_str(vlib.norm_sh(vlib.parse_sh(nb)))
+                    except Exception:
+                        break
+                    cases.append("counts\t%s\t%s\t%s" % (f[1], ca, cb))
+            for c in cases:                       # one level at a time: stop as soon as the count explodes (hang guard)
+                r = ctx.impl([c])[0]
+                tried += 1
+                if not r.startswith("CNT "):
+                    if r in ("HANG", "SKIPPED") or r.startswith("CRASH"):
+                        ctx.fail("call does not return: " + r, c, {"nested_from": dis["case"], "series": series})
+                    break
+                series.append(sum(int(x) for x in r.split()[1:]))
+                if series[-1] > 1500000:
+                    break
+            for i in range(2, len(series)):
+                j = 2 * (i + 1) - 1
+                if j < len(series) and not poly_ok(series[i], series[j], 50):
+                    ctx.fail("recursive calls multiply with each level of nesting (the disagreeing case nested in its own leaf)",
+                             cases[j], {"nested_from": dis["case"], "leaf": leaf, "levels": [i + 1, j + 1],
+                                        "calls": [series[i], series[j]], "series": series})
+                    break
+            if ctx.failures:
+                break
+        if ctx.failures:
+            break
+    ctx.notes["amplification_cases"] = tried
 
 def shape_families():
     """pairs of nested shapes (a, b) per depth on which is_subset holds / merger succeeds: the positive paths
@@ -139,6 +204,9 @@ def run(ctx):
             if j < len(v) and not poly_ok(v[i], v[j], 50):
                 ctx.fail("recursive calls grow faster than quadratically with nesting depth", k, {"depth": [i + 1, j + 1], "calls": [v[i], v[j]], "series": v})
                 break
+    # ---- violation search when the counter correspondence broke without a failing input so far
+    if ctx.disagreements and not ctx.failures:
+        amplify(ctx)
     # ---- allocation families (implementation only)
     fam = {}
     depths = list(range(1, 21))
